@@ -344,7 +344,10 @@ void op_reserve(Slot &s, size_t n)
     observe(s, "reserve");
     xt_check(s, 0, 0, 0, 0, "reserve");
     VCHECK(m->cap >= c0, "reserve.shrunk", "reserve(%zu) reduced the capacity %zu -> %zu", n, c0, m->cap);
-    if (n <= c0 || ac.unrep || ac.over || failed) {
+    // a request that no allocation strategy can satisfy must leave the vector as it was; one during which some
+    // allocation request was refused may still have been satisfied another way (say, the exact size after a
+    // refused over-allocation): the outcome decides, and it must be one of the two documented ones in full
+    if (n <= c0 || ac.unrep || ac.over || (failed && m->cap < n)) {
         size_t R1 = 0;
         if (m->data) lib_is_live(m->data, &R1);
         VCHECK(m->cap == c0 && m->data == d0 && R1 == R0, "reserve.unchanged",
@@ -383,7 +386,7 @@ bool op_resize(Slot &s, size_t n)
     if (!grow) {
         VCHECK(!ab, "resize.abort_within_cap", "resize(%zu) aborted although the capacity is %zu", n, c0);
         VCHECK(g_alloc_ordinal == o0, "resize.alloc_within_cap", "resize(%zu) within the capacity %zu made an allocation request", n, c0);
-    } else if (cannot_pre || failed) {
+    } else if (cannot_pre || (failed && ab)) {
         if (!ab) {
             size_t sz = cstl_vector_size(&s.v), cp = cstl_vector_capacity(&s.v);
             VCHECK(false, "resize.must_abort",
@@ -393,6 +396,7 @@ bool op_resize(Slot &s, size_t n)
         s.dead = true;
         return true;
     } else {
+        // (returned normally although a request was refused: it found another way, and is judged as a success)
         VCHECK(!ab, "resize.spurious_abort", "resize(%zu) aborted although no allocation failed (capacity %zu)", n, c0);
     }
     // success: constructor for [s0,n) or destructor for [n,s0)
@@ -440,7 +444,7 @@ void op_shrink(Slot &s)
     bool failed = alloc_failures() > f0;
     observe(s, "shrink_to_fit");
     xt_check(s, 0, 0, 0, 0, "shrink_to_fit");
-    if (failed) {
+    if (failed && m->cap >= c0) {      // (a smaller capacity after a refused request: it found another way; observe/check_content judge it)
         VCHECK(m->cap == c0 && m->data == d0, "shrink.unchanged", "shrink_to_fit whose allocation failed changed the vector: capacity %zu -> %zu%s",
                c0, m->cap, m->data == d0 ? "" : ", data pointer changed");
         CNT("class.shrink_failed");
